@@ -29,6 +29,8 @@ def _stats(runs: list[dict]) -> dict:
         c["maximize" if cfg["max"] else "minimize"] += 1
         for lv in cfg["levels"]:
             c["engine:" + lv["variant"]] += 1
+            if lv["variant"] == "CUSTOM":
+                c["custom_deme_class"] += 1
         c["gsc:" + cfg["gsc"]] += 1
         first_true = None
         queued_after = 0
